@@ -420,12 +420,12 @@ func drawForeign(c *ctx) *candidate {
 			f.prefixType = tinkpb.OutputPrefixType_RAW
 		}
 		f.material = append([]byte{}, target.material...)
-		f.material[0] ^= 0x80
+		f.material[8] ^= 0x80
 		for clash := true; clash; { // different from every key of the keyset, by construction
 			clash = false
 			for _, o := range s.entries {
 				if twins(o, f) {
-					f.material[0]++
+					f.material[8]++
 					clash = true
 				}
 			}
